@@ -4,7 +4,7 @@ import re
 import tomllib
 from concurrent.futures import ThreadPoolExecutor
 
-from ..lib import facts, mir, src as S, shapes
+from ..lib import facts, mir, src as S, shapes, who
 from . import c06, c17, common_identity as ci
 
 LEVEL = "other"
@@ -254,6 +254,16 @@ def walk_attr_sites(sf):
                         yield f["file"], a, {"kind": kind, "ident": "%s.%s" % (it["ident"], m["ident"]), "owner": it, "member": m, "mod": it.get("mod")}
 
 
+def _private_helper_of_docs_setter(file, g):
+    """a docs-conditional private method whose only callers are the docs setters of the same builder (the gate one level down)"""
+    owner = re.match(r"\s*([A-Za-z_][A-Za-z0-9_]*)", g["owner"].get("self_ty") or g["owner"].get("ident") or "")
+    if not owner or file != "build.rs":
+        return False
+    prog = mir.Program(facts.load_mir(facts.CONFIGS["default"]))
+    return who.owner_ok(prog, "scale_info::build::%s::%s" % (owner.group(1), g["member"]["ident"]), DOCS_SETTERS | {"scale_info::build::TypeBuilder::docs_portable",
+                        "scale_info::build::FieldBuilder::docs_portable", "scale_info::build::VariantBuilder::docs_portable"})
+
+
 CODEC_DERIVES = {"Encode", "Decode", "CompactAs", "MaxEncodedLen", "DecodeWithMemTracking"}
 
 
@@ -335,6 +345,8 @@ def classify_sites(chk, sf):
             elif k == "impl-fn" and feats <= {"docs"} and g["member"]["ident"] in ("docs", "docs_portable"):
                 kind = "docs-setter"
             elif k == "impl-fn" and g["member"]["ident"] in ("docs", "docs_portable"):
+                kind = "docs-setter"
+            elif k == "impl-fn" and feats <= {"docs"} and _private_helper_of_docs_setter(file, g):
                 kind = "docs-setter"
             elif k == "impl-type" and g["ident"] == "PortableForm.String" and (g["owner"].get("trait") or "").split("::")[-1] == "Form" \
                     and g["member"].get("ty", "").replace(" ", "") in ("crate::prelude::string::String", "String", "&'staticstr", "alloc::string::String"):
@@ -431,11 +443,18 @@ def bitvec_module(sf, file):
     for f in sf.files("lib"):
         if f["file"] != file:
             continue
+        # names the module imports from the bitvec crate (`use bitvec::{order::Lsb0, vec::BitVec}`): they are bitvec's types under a short name
+        imported = set()
+        for it in f["items"]:
+            if it.get("mod") == "bit_vec" and it["kind"] == "use" and it["ident"].replace(" ", "").startswith("bitvec::"):
+                imported |= set(re.findall(r"([A-Za-z_][A-Za-z0-9_]*)\s*(?=[,}]|$)", it["ident"]))
         for it in f["items"]:
             if it.get("mod") == "bit_vec":
                 if it["kind"] == "use":
                     continue
-                if it["kind"] == "impl" and (it.get("trait") or "").endswith("TypeInfo") and it["self_ty"].replace(" ", "").startswith("bitvec::"):
+                head = re.match(r"\s*([A-Za-z_][A-Za-z0-9_:]*)", it.get("self_ty") or "")
+                if it["kind"] == "impl" and (it.get("trait") or "").endswith("TypeInfo") and (
+                        it["self_ty"].replace(" ", "").startswith("bitvec::") or (head and head.group(1) in imported)):
                     continue
                 return False, "mod bit_vec contains %s %s, not only `impl TypeInfo for bitvec::..`" % (it["kind"], it["ident"])
     return True, ""
@@ -638,7 +657,11 @@ def cross_config(chk, ref, ref_fp, ref_tables, prog, docs_on, bitvec_on):
     for p in diffs:
         sp = mir.strip_generics(p)
         if docs_on and sp in DOCS_SETTERS:
-            allowed.add(p)
+            allowed.add(sp)
+            continue
+        if docs_on and who.owner_ok(prog, sp, DOCS_SETTERS):
+            # the gate moved into a private helper that only a docs setter calls: it stands for that setter
+            allowed |= {c for c in who.callers(prog).get(sp, set()) if c in DOCS_SETTERS}
             continue
         b = prog.body(p)
         chk.fail("R15.2", "body-differs:" + sp, b.where(), "the body of %s under features [%s] differs from the reference configuration [%s]: "
